@@ -219,7 +219,8 @@ def _valid(j, in_loop=False, top=True):
     if t == "seq":
         if not j[1]:
             return False
-        if not top and j[1][0][0] != "ev":
+        if not top and j[1][0][0] != "ev" and not (
+                in_loop and len(j[1]) == 1 and j[1][0][0] == "break"):
             return False      # fragment F: a sequence begins with an event
         for i, it in enumerate(j[1]):
             if it[0] in ("break", "kill") and i != len(j[1]) - 1:
@@ -228,7 +229,8 @@ def _valid(j, in_loop=False, top=True):
                 return False
             if not _valid(it, in_loop, False):
                 return False
-        if all(it[0] in ("break", "kill") for it in j[1]):
+        if all(it[0] in ("break", "kill") for it in j[1]) and not (
+                in_loop and len(j[1]) == 1 and j[1][0][0] == "break"):
             return False
         return True
     if t == "fork":
